@@ -3,7 +3,7 @@
    architecture tables are COMPUTED from the generated constants (Gen/UnwindConsts.v: REGISTERS, memoize_register
    aliases, the names given to set_cfa / set_ra, CALLEE_SAVED_REGS; Gen/CfiOps.v: size_of::<Register>()).
    Definitions only; extracted. *)
-From RM Require Import C06.Model C06.GenModel C06.Driver C06.GenDriver C06.Proofs7 Gen.UnwindConsts Gen.CfiOps.
+From RM Require Import C08.Model C06.Model C06.GenModel C06.Driver C06.GenDriver C06.Proofs7 Gen.UnwindConsts Gen.CfiOps.
 Open Scope Z_scope.
 
 Definition arm : arch :=
@@ -36,6 +36,11 @@ Definition real_env2 (k : Z) (ctx : list (bytes * Z)) (valid : option (list byte
   let a := arch_of2 k in
   mkEnv (real_callee2 k a ctx valid) (mem_read (a_width a) stackbase stack) ip false 0.
 
+(* walk_stack unwinds only with a stack memory that has a range: `stack_memory.memory_range()` = C08's [mk_range]
+   (Gen/C08Tables.v g_mr_MinidumpMemoryBase, c08_gen_memory_ranges): not empty, base + size within u64 *)
+Definition stack_ok (stackbase : Z) (stack : bytes) : bool :=
+  match mk_range stackbase (blen stack) with Some _ => true | None => false end.
+
 Definition run_real2_gen (k : Z) (ctx : list (bytes * Z)) (valid : option (list bytes))
                          (stackbase : Z) (stack : bytes) (initaddr initsize : Z) (init : bytes)
                          (deltas : list (Z * bytes)) : c06_out :=
@@ -43,6 +48,7 @@ Definition run_real2_gen (k : Z) (ctx : list (bytes * Z)) (valid : option (list 
   let ip := match assoc (a_ip a) ctx with Some v => v | None => 0 end in
   let sp := match assoc (a_sp a) ctx with Some v => v | None => 0 end in
   let sp_valid := match valid with None => true | Some which => mem_b (a_sp a) which end in
+  if negb (stack_ok stackbase stack) then out_none else
   if negb sp_valid || (ip <? 1073741824) || (1073741824 + 65536 <=? ip) then out_none else
   match gen_walk_frame_cfi (real_ops a) Debug (real_env2 k ctx valid stackbase stack ip)
                            (mkCfi (initaddr, init) initsize deltas) (ip - 1073741824) (real_init a ctx valid) with
